@@ -145,7 +145,7 @@ class JsonDocument(HierDictDocument):
         return value
 
     def _ret_bool(self, cls, value):
-        if value is None or value in (True, False):
+        if value is None or value is True or value is False:
             return value
         raise ValidationError(value)
 
